@@ -8,6 +8,15 @@ from vlib import log
 def front(v, prop, need_driver=True, need_harness=True, need_cli=False, profiles=("release", "checked"), need_shim=False):
     """Returns dict(proof=<check_props result>, driver_ok, harness_ok, cli_ok). Never raises on a broken proof:
     the caller still runs the search for a failing input."""
+    # the build steps share coq/, .build/driver and the cargo target directories: one check builds at a time
+    import fcntl
+    os.makedirs(vlib.BUILD, exist_ok=True)
+    with open(os.path.join(vlib.BUILD, "build.lock"), "w") as lk:
+        fcntl.flock(lk, fcntl.LOCK_EX)
+        return _front(v, prop, need_driver, need_harness, need_cli, profiles, need_shim)
+
+
+def _front(v, prop, need_driver, need_harness, need_cli, profiles, need_shim):
     st = dict(proof=None, driver_ok=False, harness_ok=False, cli_ok=False, broken=[])
     ok, msg = vlib.gen_constants()
     if not ok:
@@ -85,7 +94,8 @@ def correspondence(v, st, prop, cmd, model_kind, tier, seed, replay=None, profil
                         runs.append((tag, "corpus-" + f, ["--replay", os.path.join(cdir, f)]))
             runs.append((tag, "gen", []))
     for tag, name, rextra in runs:
-        outdir = os.path.join(vlib.BUILD, "run", "%s-%s-%s" % (cmd, name.replace("/", "_"), tag))
+        # per property: checks that share a harness command (C02/C06/C07, C04/C14/C15, ...) may run side by side
+        outdir = os.path.join(vlib.BUILD, "run", "%s-%s-%s-%s" % (prop, cmd, name.replace("/", "_"), tag))
         rc, out = vlib.run_harness(cmd, outdir, seed, tier, tag, list(rextra) + list(extra), timeout=timeout)
         if rc != 0:
             st["broken"].append("harness %s (%s,%s) exited %d: %s" % (cmd, name, tag, rc, out[-300:]))
